@@ -54,6 +54,11 @@ CHECKS = {
          "13 invalid configurations (5 malformed -go values, unknown failOn, rule pattern without match, two empty selections, two unparsable parameter values, unknown flag, unknown parameter) x the 4 real binaries x 1..3 packages; the analyzer's cached-configuration latch explored as an explicit state machine: all sequences of <=4 passes over {valid, valid-2, bad -go, empty selection, bad rule pattern} from the reset latch on the real prepareGocritic/runAnalyzer (driven through Analyzer.Run, latch reset/read by an overlay-added hook file); target sets of <=2 packages over {ok, syntax error, type error, unresolved import, mixed package clauses, import cycle, only _test files, empty dir} x 4 binaries x enable-all; ill-typed 1-deviation variants of the examples analysed in-process by all checkers.",
          "A faulty package that is analysed with zero diagnostics and exit 0 is accepted (the property allows 'analysed as far as its type information allows').",
          "DESIGN.md section 3, C19"),
+ "C13": ("exploration",
+         "exhaustive enumeration of metamorphic transformations (padding/blank-line insertion at every gap, appended declarations, permutations of function chunks) of every example file; oracle = the file's own expectations",
+         "For each of the 211 example files of the 102 checkers that have examples: 9 padding declarations (func, body-less func, method, generic func, type, var block, const, control-flow func, deferred literal) appended and inserted at every gap between top-level declarations, 1 and 3 blank lines at every gap, and every permutation of the plain-function chunks (complete up to 5 functions, else rotations/reversal/adjacent swaps). Each variant is re-type-checked and analysed by its checker; the /*! */ expectations are re-read from the transformed text (they move with their chunk) and must match the produced warnings exactly; warnings located inside padding are discounted.",
+         "Reordering is not applied to dupImport, typeDefFirst, commentedOutImport, codegenComment; nothing is inserted above the imports. The maintainers' expectations are the oracle, so only examples' constructs are covered.",
+         "DESIGN.md section 3, C13"),
 }
 
 PENDING = {
